@@ -28,6 +28,7 @@ func propC08(c *Ctx) {
 	c.ruleSchemaExtentByDependency("C08-SCHEMA-EXTENT")
 	c.ruleRegexPreludeComment("C08-REGEX-PRELUDE-COMMENT")
 	c.ruleCommentBeforeOpen("C08-COMMENT-BEFORE-OPEN")
+	c.ruleCommentStartTotal("C08-COMMENT-START-TOTAL")
 	c.ruleFinalNewline("C08-FINAL-NEWLINE")
 	c.ruleOpenTransparent(m, "C08-OPEN-TRANSPARENT") // a body in explicit parentheses is the body without them
 	c.ruleC14NameIsPath()                            // blank lines in front of a file move its errors: the content of a file object is the file's bytes
